@@ -276,6 +276,7 @@ def generate(rng, index, tier):
         'seed': rng.getrandbits(32), 'net': net, 'exec': {'delay_ms': rng.choice([[0, 0], [0, 2], [0, 2], [1, 20]])},
         'classes': classes, 'friends': friends, 'blocked': blocked, 'files': files, 'shared': shared,
         'excluded': excluded, 'slots': rng.choice([0, 0, 1, 2]), 'speed_kbps': rng.choice([0, 8, 8, 30]),
+        'busy': rng.choice([0.5, 2.0, 4.0]) if rng.random() < 0.25 else None,
         'dl': dl, 'parent': rng.random() < 0.8, 'inplace': rng.random() < 0.3, 'steps': steps,
     }
 
@@ -447,6 +448,19 @@ def corpus(tier):
         out.append(_plan(three, [search('u1', 'server', 'secret'), {'op': 'friend', 'user': 'u1', 'value': True, 'gap': gap},
                                  q('u1', 'priv/secret song.mp3', gap=gap), {'op': 'friend', 'user': 'u1', 'value': False, 'gap': gap},
                                  {'op': 'shares', 'user': 'u1', 'gap': gap}, search('u1', 'dist', 'secret', gap=gap)]))
+    # 9. a change of the block list / friends that is taken back before the settings are looked at again, a request in
+    #    between - on a quiet client and on one that is kept busy by status announcements
+    for busy in (None, 0.5, 2.0, 4.0):
+        for slots in (0, 1):
+            out.append(_plan(three, [{'op': 'block', 'user': 'u1', 'flags': [], 'gap': 0.3},
+                                     q('u1', 'pub/song one.mp3', gap=0.3),
+                                     {'op': 'block', 'user': 'u1', 'flags': ['uploads'], 'gap': 0.3}],
+                             blocked={'u1': ['uploads']}, classes={'u0': 'friend', 'u1': 'blocked', 'u2': 'named'},
+                             friends=[], slots=slots, inplace=True, busy=busy))
+            out.append(_plan(three, [{'op': 'friend', 'user': 'u1', 'value': True, 'gap': 0.3},
+                                     q('u1', 'priv/secret song.mp3', gap=0.3),
+                                     {'op': 'friend', 'user': 'u1', 'value': False, 'gap': 0.3}],
+                             slots=slots, inplace=True, busy=busy))
     return out
 
 
@@ -1101,6 +1115,18 @@ def _run(world: World, plan):
             server.send_to('alice', M.PotentialParents.Response(
                 [PotentialParent(PARENT, parent.host.ip, parent.port)]))
         await asyncio.sleep(1.0)
+        if plan.get('busy'):
+            # a busy client: the server announces the status of some user every so often, which keeps the transfer
+            # manager from ever being idle
+            async def chatter():
+                k = 0
+                while True:
+                    await asyncio.sleep(float(plan['busy']))
+                    k += 1
+                    world.net.fired['status_chatter'] += 1
+                    server.send_to('alice', M.GetUserStatus.Response('zz-somebody', 1 + k % 2, False))
+            chatter_task = asyncio.ensure_future(chatter())
+            world.keep_alive.append(chatter_task)
         for step in plan.get('steps', []):
             gap = float(step.get('gap', 0.0))
             if gap > 0:
@@ -1112,6 +1138,8 @@ def _run(world: World, plan):
         await asyncio.sleep(SETTLE + 1.0)
         world.probe('final_evaluation')
         evaluate('final')
+        if plan.get('busy'):
+            chatter_task.cancel()
 
     world.run(main())
 
